@@ -483,6 +483,9 @@ func lemmaOriginRoundTrip(p []byte) ([]byte, int) {
 //@ func GenBankParser(state *pars.State, result *pars.Result) (err error)
 //@   prop C07
 //@   requires !isnil(state) && !isnil(result)
+// the declared length handed to the ORIGIN reader is one whose block size (about 1.27 times the
+// length) is representable: beyond it toOriginLength wraps around to a negative request size
+//@   callpre makeGenbankOriginParser(n0): 0 <= n0 && n0 <= 4611686018427387903
 
 // ---------------------------------------------------------------------------------------------
 // C17: the FASTA path.  The text itself is produced by go-wrap and fmt and read by go-pars
